@@ -37,34 +37,82 @@ func c06Stream(r *hx.Rand, tier string, n int, w *bufio.Writer) map[string]int {
 	}
 	stats := map[string]int{}
 	sy := newSymbols()
-	keys := hx.Keys()
-	signers := []struct {
+	// a signing key of EVERY algorithm the library supports for signing (RS/PS/ES 256-384-512, EdDSA); the first key pair of the
+	// ring that can sign with it (c06hist.go: hx.Keys plus P-384 / P-521 / further pairs generated once per run)
+	type c06Signer struct {
 		k   *hx.Key
 		alg string
-	}{{keys[0], "RS256"}, {keys[0], "RS384"}, {keys[0], "PS256"}, {keys[2], "ES256"}, {keys[4], "ES384"}, {keys[5], "EdDSA"}}
+	}
+	var signers []c06Signer
+	for _, alg := range c06Algs {
+		signers = append(signers, c06Signer{c06KeysFor(alg)[0], alg})
+	}
+	// RS256 stays the most frequent one (the modal class of the stream)
+	signers = append(signers, signers[0], signers[0])
 	flows := []string{"code", "code", "implicit", "implicit-idonly", "refresh", "device", "exchange-id", "jwt-bearer", "client-credentials"}
+	var hist *c06Hist // the running history (nil: the next case starts a new one)
+	histSeq := 0
 	for i := 0; i < n; i++ {
-		router := hx.Pick(r, "provider", "legacy")
-		sg := signers[r.Intn(len(signers))]
-		bed, err := opbed.New(opbed.Config{Router: router, S256: true, Post: true, PrivateKeyJWT: true, Refresh: true, SignKey: sg.k, SignAlg: sg.alg,
-			Caps: refstore.Caps{CC: true, TE: true, Device: true, UserinfoFromReq: r.Chance(50)}})
-		if err != nil {
-			panic(err)
-		}
-		bed.Store.UserinfoInIDToken = r.Chance(50)
-		if r.Chance(35) {
-			// key-rotation window: a retired key of the same type is still published
-			old := keys[1]
-			if sg.k.Kty == "EC" {
-				old = keys[3]
-			} else if sg.k.Kty == "OKP" {
-				old = keys[6]
+		// ---- every case is one issuance step of a HISTORY (c06hist.go); the classic case is a history of one step over a fresh provider
+		if hist == nil {
+			histSeq++
+			if r.Chance(30) {
+				hist = c06NewHist(r, histSeq, 2+r.Intn(5), 1+r.Intn(2))
+			} else {
+				router := hx.Pick(r, "provider", "legacy")
+				sg := signers[r.Intn(len(signers))]
+				bed, err := opbed.New(opbed.Config{Router: router, S256: true, Post: true, PrivateKeyJWT: true, Refresh: true, SignKey: sg.k, SignAlg: sg.alg,
+					Caps: refstore.Caps{CC: true, TE: true, Device: true, UserinfoFromReq: r.Chance(50)}})
+				if err != nil {
+					panic(err)
+				}
+				bed.Store.UserinfoInIDToken = r.Chance(50)
+				if r.Chance(35) {
+					// key-rotation window: a retired key of the same type (and curve) is still published
+					for _, old := range c06KeysFor(sg.alg) {
+						if old != sg.k {
+							bed.Store.AddPublishedKey("retired", jose.SignatureAlgorithm(sg.alg), old.Pub, "sig")
+							break
+						}
+					}
+				}
+				hist = &c06Hist{id: histSeq, steps: 1, beds: []*opbed.Bed{bed}, srvs: []*httptest.Server{httptest.NewServer(bed.Handler)},
+					cur: []*c06Cur{{k: sg.k, alg: sg.alg, kid: "sig1"}}}
 			}
-			if sg.alg != "ES384" {
-				bed.Store.AddPublishedKey("retired", jose.SignatureAlgorithm(sg.alg), old.Pub, "sig")
+		}
+		h := hist
+		prov := r.Intn(len(h.beds))
+		bed, srv, cur := h.beds[prov], h.srvs[prov], h.cur[prov]
+		router := bed.Cfg.Router
+		// a key-change event of this step: before its flow starts, or right before its token-issuing request
+		evName, evWhen := "none", "-"
+		evChance := 12
+		if h.steps > 1 {
+			evChance = 55
+			if h.step == 0 {
+				evChance = 20
 			}
 		}
-		srv := httptest.NewServer(bed.Handler)
+		if r.Chance(evChance) {
+			evWhen = hx.Pick(r, "before", "mid")
+			if evWhen == "before" {
+				evName = h.event(r, prov)
+			}
+		}
+		preIssue := func() {
+			if evWhen == "mid" && evName == "none" {
+				evName = h.event(r, prov)
+			}
+		}
+		h.step++
+		if h.step >= h.steps {
+			hist = nil
+		}
+		endCase := func() {
+			if hist != h {
+				h.close()
+			}
+		}
 		cls := flowClients()
 		fc := cls[0]
 		if r.Chance(25) {
@@ -135,6 +183,9 @@ func c06Stream(r *hx.Rand, tier string, n int, w *bufio.Writer) map[string]int {
 				reqAuthTime = ar.AuthTime.Unix()
 			}
 			markFn()
+			if respType != "code" {
+				preIssue() // implicit: the callback issues the tokens
+			}
 			return bed.Do(bed.Get("/authorize/callback", url.Values{"id": {id}}, ""))
 		}
 		codeExchange := func() *opbed.Resp {
@@ -147,6 +198,9 @@ func c06Stream(r *hx.Rand, tier string, n int, w *bufio.Writer) map[string]int {
 				f.Set("code_verifier", "verifier-FFFFFFFFFFFFFFFFFFFFFFFFFFFFFFFFFFFFFFFFFFF")
 			}
 			markFn()
+			if flow == "code" {
+				preIssue()
+			}
 			return bed.Do(bed.Form("/oauth/token", f, ownAuth(sy, fc)))
 		}
 		withAT := true
@@ -187,6 +241,7 @@ func c06Stream(r *hx.Rand, tier string, n int, w *bufio.Writer) map[string]int {
 			first := codeExchange()
 			code = ""
 			mark()
+			preIssue() // the first exchange has already signed tokens with the previous key
 			tokenResp = bed.Do(bed.Form("/oauth/token", url.Values{"grant_type": {"refresh_token"}, "refresh_token": {first.Str("refresh_token")}}, ownAuth(sy, fc))).JSON
 			nonce = "" // a refresh request carries no nonce
 		case "device":
@@ -195,6 +250,7 @@ func c06Stream(r *hx.Rand, tier string, n int, w *bufio.Writer) map[string]int {
 				bed.Store.ApproveDevice(uc, "user1")
 			}
 			mark()
+			preIssue()
 			tokenResp = bed.Do(bed.Form("/oauth/token", url.Values{"grant_type": {string(oidc.GrantTypeDeviceCode)}, "device_code": {da.Str("device_code")}}, ownAuth(sy, fc))).JSON
 			nonce, reqAuthTime = "", 0
 			reqAMR = nil
@@ -215,6 +271,7 @@ func c06Stream(r *hx.Rand, tier string, n int, w *bufio.Writer) map[string]int {
 				f.Set("subject_token_type", ttAccess)
 			}
 			mark()
+			preIssue()
 			ex := bed.Do(bed.Form("/oauth/token", f, ownAuth(sy, fc)))
 			tokenResp = map[string]any{}
 			if ex.Status == 200 {
@@ -226,10 +283,12 @@ func c06Stream(r *hx.Rand, tier string, n int, w *bufio.Writer) map[string]int {
 			now := time.Now().Unix()
 			l := hx.NewLine("x")
 			a := assertion(sy, l, cls[4].key, cls[4].kid, "pk", "pk", []string{opbed.Issuer}, now-5, now+300)
+			preIssue()
 			tokenResp = bed.Do(bed.Form("/oauth/token", url.Values{"grant_type": {string(oidc.GrantTypeBearer)}, "assertion": {a}, "scope": {scopeSet}}, opbed.Auth{Kind: "none"})).JSON
 			reqSubject = "pk"
 			skew = 0 // the jwt-bearer grant has no registered client whose clock skew would apply
 		case "client-credentials":
+			preIssue()
 			tokenResp = bed.Do(bed.Form("/oauth/token", url.Values{"grant_type": {"client_credentials"}, "scope": {scopeSet}}, ownAuth(sy, fc))).JSON
 			reqSubject = fc.c.ID
 		}
@@ -238,7 +297,8 @@ func c06Stream(r *hx.Rand, tier string, n int, w *bufio.Writer) map[string]int {
 			return s
 		}
 		idToken, accessToken := str("id_token"), str("access_token")
-		l := hx.NewLine("C06").I("case", int64(i)).S("router", router).S("flow", flow).S("alg", sg.alg).S("r.iss", opbed.Issuer).S("r.client", fc.c.ID).
+		sgAlg := cur.alg // the algorithm of the signing key the storage returns at the token-issuing request
+		l := hx.NewLine("C06").I("case", int64(i)).S("router", router).S("flow", flow).S("alg", sgAlg).S("r.iss", opbed.Issuer).S("r.client", fc.c.ID).
 			S("r.sub", reqSubject).S("r.nonce", nonce).I("r.authtime", reqAuthTime).L("r.amr", reqAMR).L("r.scopes", strings.Split(scopeSet, " ")).
 			I("r.lifetime", int64(lifetime/time.Second)).I("r.skew", int64(skew/time.Second)).B("r.assert", fc.c.AssertUserinfo).B("r.withat", withAT && accessToken != "")
 		// the granted scopes as the client's registration restricts them per token kind (reference filter, not the client's function).
@@ -256,11 +316,14 @@ func c06Stream(r *hx.Rand, tier string, n int, w *bufio.Writer) map[string]int {
 		l.S("restrict", restrict).L("r.iddrop", fc.c.IDTokenScopeDrop).L("r.atdrop", fc.c.AccessTokenScopeDrop).L("r.idscopes", idScopes).L("r.atscopes", atScopes).
 			B("r.fillsid", fillsID).B("r.fillsat", true).B("cap.uireq", bed.Cfg.Caps.UserinfoFromReq).B("r.code", code != "" && flow == "code").
 			S("j.ui", askedSince("SetUserinfoFromScopes")).S("j.uireq", askedSince("SetUserinfoFromRequest")).S("j.priv", askedSince("GetPrivateClaimsFromScopes"))
+		// the history this issuance belongs to, the key-change event of this step, and the signing key the reference storage returns NOW
+		l.I("h.id", int64(h.id)).I("h.step", int64(h.step)).I("h.steps", int64(h.steps)).I("h.prov", int64(prov)).I("h.nprov", int64(len(h.beds))).
+			S("h.ev", evName).S("h.when", evWhen).I("k.cur", int64(cur.k.No)).S("k.kid", cur.kid).S("k.alg", cur.alg)
 		if idToken == "" && accessToken == "" {
 			l.S("obs", "no-tokens")
 			stats["no-tokens-"+flow]++
 			fmt.Fprintln(w, l.String())
-			srv.Close()
+			endCase()
 			continue
 		}
 		l.S("obs", "tokens")
@@ -287,6 +350,14 @@ func c06Stream(r *hx.Rand, tier string, n int, w *bufio.Writer) map[string]int {
 				claims, verr = rp.VerifyIDToken[*oidc.IDTokenClaims](context.Background(), idToken, v)
 			}
 			l.B("o.idtoken", true).B("o.rpverifies", verr == nil)
+			sno, skid, salg := c06SignedBy(idToken)
+			l.I("o.idsigner", sno).S("o.idkid", skid).S("o.idalg", salg)
+			// at_hash / c_hash are judged against a reference computed with the standard library only (hx.RefClaimHash), by the
+			// algorithm the HEADER of this ID token names (OIDC Core 3.1.3.6 / 3.3.2.11)
+			hashAlg := salg
+			if hashAlg == "" {
+				hashAlg = sgAlg
+			}
 			if verr != nil {
 				l.S("o.rperr", verr.Error())
 			}
@@ -302,25 +373,25 @@ func c06Stream(r *hx.Rand, tier string, n int, w *bufio.Writer) map[string]int {
 			// c_hash
 			chOK := true
 			if claims.CodeHash != "" || code != "" && flow == "code" {
-				want := hx.RefClaimHash(code, sg.alg)                   // reference hash: standard library only
+				want := hx.RefClaimHash(code, hashAlg)                   // reference hash: standard library only
 				chOK = claims.CodeHash == "" || claims.CodeHash == want // c_hash is optional in the token response
 			}
 			l.B("o.chash", chOK)
 			// at_hash: when present it must be the spec hash of the access token of this very response
-			l.B("o.athash", claims.AccessTokenHash == "" || accessToken == "" || claims.AccessTokenHash == hx.RefClaimHash(accessToken, sg.alg))
+			l.B("o.athash", claims.AccessTokenHash == "" || accessToken == "" || claims.AccessTokenHash == hx.RefClaimHash(accessToken, hashAlg))
 			// the hashes in the symbolic spelling of the model: over the access token, the code, or something else
 			canon := func(h string) string {
-				fam := hx.HashFamily(sg.alg)
+				fam := hx.HashFamily(hashAlg)
 				switch {
 				case h == "":
 					return ""
-				case accessToken != "" && h == hx.RefClaimHash(accessToken, sg.alg):
+				case accessToken != "" && h == hx.RefClaimHash(accessToken, hashAlg):
 					return "H(" + fam + "/2,AT)"
-				case code != "" && h == hx.RefClaimHash(code, sg.alg):
+				case code != "" && h == hx.RefClaimHash(code, hashAlg):
 					return "H(" + fam + "/2,CODE)"
-				case h == hx.RefClaimHash(accessToken+code, sg.alg):
+				case h == hx.RefClaimHash(accessToken+code, hashAlg):
 					return "H(" + fam + "/2,ATCODE)"
-				case h == hx.RefClaimHash(code+accessToken, sg.alg):
+				case h == hx.RefClaimHash(code+accessToken, hashAlg):
 					return "H(" + fam + "/2,CODEAT)"
 				}
 				return "other"
@@ -342,9 +413,11 @@ func c06Stream(r *hx.Rand, tier string, n int, w *bufio.Writer) map[string]int {
 		// ---- the access token
 		if accessToken != "" {
 			if strings.Count(accessToken, ".") == 2 {
-				av := op.NewAccessTokenVerifier(opbed.Issuer, &op.OpenIDKeySet{Storage: bed.Storage}, op.WithSupportedAccessTokenSigningAlgorithms(sg.alg))
+				av := op.NewAccessTokenVerifier(opbed.Issuer, &op.OpenIDKeySet{Storage: bed.Storage}, op.WithSupportedAccessTokenSigningAlgorithms(sgAlg))
 				ac, aerr := op.VerifyAccessToken[*oidc.AccessTokenClaims](context.Background(), accessToken, av)
 				l.B("o.jwtat", true).B("o.atverifies", aerr == nil)
+				sno, skid, salg := c06SignedBy(accessToken)
+				l.I("o.atsigner", sno).S("o.atkid", skid).S("o.atalg", salg)
 				if ac != nil {
 					l.S("a.iss", ac.Issuer).S("a.sub", ac.Subject)
 				}
@@ -406,13 +479,23 @@ func c06Stream(r *hx.Rand, tier string, n int, w *bufio.Writer) map[string]int {
 			}
 		}
 		stats["flow-"+flow]++
-		stats["alg-"+sg.alg]++
+		stats["alg-"+sgAlg]++
 		stats["restrict-"+restrict]++
+		if h.steps > 1 {
+			stats[fmt.Sprintf("history-step-providers%d", len(h.beds))]++
+			if h.step == h.steps {
+				stats[fmt.Sprintf("history-of-%d-steps", h.steps)]++
+			}
+		}
+		if evName != "none" {
+			stats["key-event-"+evName+"-"+evWhen]++
+			stats["key-event-in-flow-"+flow]++
+		}
 		if strings.Count(accessToken, ".") == 2 {
 			stats["restrict-"+restrict+"-with-jwt-at"]++
 		}
 		fmt.Fprintln(w, l.String())
-		srv.Close()
+		endCase()
 	}
 	return stats
 }
